@@ -15,7 +15,7 @@ CANARY = "canary_arithmetic_must_fail"
 
 
 def _budget(tier):
-    return dict(per_harness=(240 if tier == "quick" else 1500), jobs=(12 if tier == "quick" else 8))
+    return dict(per_harness=(900 if tier == "quick" else 2400), jobs=(12 if tier == "quick" else 8))
 
 
 def run_kani_units(pid, names, tier, log):
@@ -154,7 +154,10 @@ def check_property(pid, tier, seed):
         if not ok:
             undecided.append("frame scan %s: %s" % (sname, detail))
 
-    ku, kund, kcmds = run_kani_units(pid, spec.get("kani", []), tier, log)
+    knames = spec.get("kani", [])
+    if tier == "quick" and "kani_quick" in spec:
+        knames = spec["kani_quick"]
+    ku, kund, kcmds = run_kani_units(pid, knames, tier, log)
     units += ku
     undecided += kund
     cmds += kcmds
